@@ -53,6 +53,7 @@ def knobs_of(shape, idx, tier, rng):
         "first_rot": [0, 0, 0, 1, -1][idx % 5] if pc == 0 else 0,
         "inst_rot": [0, 1, -1, 0, 2, -2][idx % 6],
         "tbl_nozero": idx % 4 == 2,
+        "fx_overwrite": idx % 3 == 1,
     }
 
 
